@@ -101,6 +101,8 @@ class PropertyRun:
             for case in cases:
                 if self.pid not in getattr(case, 'properties', (self.pid,)):
                     continue
+                if getattr(case, 'assumed', False):
+                    continue        # assumed contract: usable by callers, never verified, always reported as an assumption
                 try:
                     res = run_case(case, repo=repo, opts=opts)
                 except Exception as e:  # engine crash: never a violation
@@ -184,6 +186,31 @@ class PropertyRun:
                 self.write_replay(rec, path)
             except Exception as e:
                 rec['replay_error'] = repr(e)
+        if not confirmed and getattr(case, 'directed', None):
+            # The failed clause is about the shape of a call (which callee, which arguments): the solver's counter-model lives
+            # in the contract's abstract records and cannot be turned into real objects.  The contract names a small family of
+            # concrete inputs that exercise this call; each is run on the real code against an oracle computed from the
+            # property statement.  Only an input that FAILS on the real code confirms the violation.
+            fam = case.directed() if callable(case.directed) else case.directed
+            for oname, args in fam:
+                try:
+                    rec2 = dict(rec)
+                    rec2.pop('replay', None)
+                    rec2['counter_model_from'] = 'directed input family of the contract (the failed clause is structural)'
+                    rec2['oracle'] = oname
+                    rec2['oracle_modules'] = getattr(self.prop, 'ORACLE_MODULES', [])
+                    rec2['args'] = args
+                    path = self.write_replay(rec2)
+                    out = self.run_replay(path)
+                    rec2['replay'] = out
+                    if out.get('confirmed'):
+                        self.write_replay(rec2, path)
+                        rec = rec2
+                        confirmed = True
+                        break
+                    os.remove(path)
+                except Exception as e:
+                    rec['replay_error'] = repr(e)
         if confirmed:
             rec['kind'] = 'obligation+replay'
             self.add_violation(rec)
@@ -307,6 +334,9 @@ class PropertyRun:
             'functions_under_contract': funcs,
             'inlined_callees': sorted(inlined - {f.get('qualname') for f in funcs}),
             'callee_contracts_used': sorted(used_contracts),
+            'callee_contracts_not_verified_in_this_check': sorted(
+                q for q in used_contracts
+                if q not in self.prop.CONE or all(getattr(cs, 'assumed', False) for cs in REG.cases(q))),
             'dropped_statements': sorted(dropped),
             'backends': backends,
             'solver_s': round(solver_s, 2),
